@@ -361,17 +361,52 @@ def explore_shape(shape, tier="quick", seed=0, budget_s=30, validate=0):
 
 
 def replay(rec):
+    if rec.get("engine") == "crosshair":
+        from props.c10 import replay as r10
+
+        return r10(rec)
     return runner.replay_record(sys.modules[__name__], rec)
+
+
+def e1_part(tier, seed):
+    """value level: the generated dispatchers for value-dependent methods (if-chain, counting, lookup-table strategies) must pass results and
+    exceptions through as well -- CrossHair on one-position method sets whose bodies raise a TypeError subclass on request"""
+    import json
+    import os
+
+    from lib import xhrun
+    from props.c11 import lit_ann, lit_bound
+    from xh import gen
+
+    hs = []
+    rng = random.Random(seed + 77)
+    for i in range(6 if tier == "quick" else 30):
+        nlit = (2, 4, 5, 6, 3, 5)[i % 6]
+        vals = rng.sample(range(-1, 9), nlit)
+        methods = [dict(kind="ann", ann=lit_ann([v]), bound=lit_bound([v]), prio=0, pred=f"type(x) is not float and x == {v!r}") for v in vals]
+        if i % 2:
+            methods.append(dict(kind="dep", bound="int", pred="x > 4", prio=0))
+        methods.append(dict(kind="static", bound="int", prio=0 if i % 3 else -1))
+        methods.append(dict(kind="static", bound="object", prio=-2))
+        checks = [("int", "int", None), ("bool", "bool", None)]
+        hs.append((f"c03_passthrough_{i}", gen.one_position_module(methods, list(range(-2, 10)) + [True, False, "a"], checks),
+                   dict(family="results and errors through value-dependent dispatchers", methods=methods)))
+    code = xhrun.main(PID, tier, seed, hs, bounds=dict(values="int unbounded, bool"), rule="see symx part", mod=None)
+    with open(os.path.join(runner.EVID, f"{PID}.json")) as fh:
+        cov = json.load(fh)["coverage"]
+    return code, {k: cov[k] for k in ("harness_modules", "check_conditions", "confirmed_over_all_paths", "inconclusive",
+                                       "counterexamples_replayed", "reachability_witnessed", "samples") if k in cov}
 
 
 def main(tier, seed):
     t0 = time.time()
     runner.assert_real_code()
+    code_e1, cov_e1 = e1_part(tier, seed)
     shapes, total, sampled = gen_shapes(tier, seed)
     kw = dict(tier=tier, seed=seed, budget_s=20 if tier == "quick" else 60, validate=1)
     results = runner.pmap("props.c03", "explore_shape", shapes, kw, chunksize=2)
-    return runner.finish(
-        PID, tier, seed, t0, results,
+    code = runner.finish(
+        PID, tier, seed, t0, results, extra=dict(value_level_part_crosshair=cov_e1),
         bounds=dict(classes=3, methods="1-3", positionals="0-2 (3 thorough), required/optional/positional-only, uniform or differing names",
                     keyword_only="two keyword names per set from {k, j, type, method}, required or optional", receivers="functions and methods with self",
                     nested_calls="6 driver bodies in which one rewritten recurse / call_next call is an argument of (or sits next to) another, x 4 choices "
@@ -385,3 +420,4 @@ def main(tier, seed):
         assumptions=["the signature-set and call-shape quantifiers are enumerated (sampled), only hierarchy and priorities are symbolic"],
         shapes_total=total, shapes_sampled=sampled, mod=sys.modules[__name__],
     )
+    return max(code, code_e1) if 1 not in (code, code_e1) else 1
